@@ -4,8 +4,8 @@
    !cur_data_key.empty()), and of where cur_data_key is set and cleared (writeObject: setDataKey /
    clear around a top-level object; writeObjectStream: the contained objects are unparsed with
    f_in_ostream before setDataKey(new_stream_id); writeTrailer and writeEncryptionDictionary run
-   with the key cleared; the cleartext metadata stream clears the key BEFORE its dictionary is
-   unparsed; signature /Contents gets f_no_encryption), per class of enc_leaf; and the
+   with the key cleared; writeTrailer always clears it (ee8e608b); for the cleartext metadata
+   stream the key is cleared AFTER its dictionary has been unparsed and before the data (5a982a7f); signature /Contents gets f_no_encryption), per class of enc_leaf; and the
    specification: what ISO 32000 (7.6.2 "General", EncryptMetadata, 12.8.1 /Contents) says must
    be encrypted. *)
 From QV Require Import Base.Bytes.
@@ -37,7 +37,9 @@ Definition leaf_flags (encrypt_metadata : bool) (l : enc_leaf) : wflags :=
   | LfStringInObjStm => {| wf_in_ostream := true; wf_no_encryption := false; wf_key_set := false |}
   | LfSigContents => {| wf_in_ostream := false; wf_no_encryption := true; wf_key_set := true |}
   | LfEncDictString | LfTrailerString => {| wf_in_ostream := false; wf_no_encryption := false; wf_key_set := false |}
-  | LfMetaDictString | LfMetaStreamData =>
+  | LfMetaDictString =>       (* the key is cleared only after the dictionary has been unparsed (fix 5a982a7f) *)
+      {| wf_in_ostream := false; wf_no_encryption := false; wf_key_set := true |}
+  | LfMetaStreamData =>
       {| wf_in_ostream := false; wf_no_encryption := false; wf_key_set := encrypt_metadata |}
   | LfStreamData | LfObjStmData | LfHintStreamData =>
       {| wf_in_ostream := false; wf_no_encryption := false; wf_key_set := true |}
